@@ -16,7 +16,6 @@ import (
 	ds "github.com/ipfs/go-datastore"
 	dssync "github.com/ipfs/go-datastore/sync"
 	"github.com/libp2p/go-libp2p/core/event"
-	"github.com/libp2p/go-libp2p/core/peer"
 )
 
 // Node is a running go-orbit-db instance attached to a peer.
@@ -76,8 +75,6 @@ func (p *Peer) Start(dir string) (*Node, error) {
 		opts.Directory = &dir
 	}
 	n := &Node{P: p, Stores: map[string]*StoreRef{}, Dir: dir, ctx: ctx, cancel: cancel}
-	n.baseRecv = TheHub.Count("direct.recv", p.ID)
-	n.baseIdle = TheHub.Count("direct.idle", p.ID)
 	p.w.mu.Lock()
 	n.baseDelivered = p.DeliveredDirect
 	p.w.mu.Unlock()
@@ -165,8 +162,9 @@ func trackBus(h *Hub, point string, args []interface{}) {
 			}
 		}
 	case "direct.recv", "direct.idle":
-		if o, ok := args[0].(interface{ PeerID() peer.ID }); ok {
-			h.counts[ck(point, o.PeerID())]++
+		// keyed by the instance's event bus (one per instance), which the Node can name too
+		if o, ok := args[0].(busOwner); ok {
+			h.counts[ck(point, o.EventBus())]++
 		}
 	case "write.emitted":
 		if s, ok := args[0].(busOwner); ok {
@@ -244,12 +242,12 @@ func (n *Node) quietLocked(why *string) bool {
 	if n.closed {
 		return true
 	}
-	recv := h.counts[ck("direct.recv", n.P.ID)] - n.baseRecv
+	recv := h.counts[ck("direct.recv", n.Bus())] - n.baseRecv
 	if want := n.P.DeliveredDirect - n.baseDelivered; recv != want {
 		*why = fmt.Sprintf("direct messages pending %d/%d", recv, want)
 		return false
 	}
-	if h.counts[ck("direct.idle", n.P.ID)]-n.baseIdle != recv+1 {
+	if h.counts[ck("direct.idle", n.Bus())]-n.baseIdle != recv+1 {
 		*why = "direct monitor busy"
 		return false
 	}
